@@ -223,6 +223,20 @@ func (s *simState) runScript(script []string) error {
 			err = s.apply(simEvent{K: "PB", N: num(1) - 1, A: num(2) - 1}, true)
 		case "heal":
 			err = s.apply(simEvent{K: "PH", N: num(1) - 1, A: num(2) - 1}, true)
+		case "deliver":
+			// deliver the oldest request in flight to node n
+			n := num(1) - 1
+			found := false
+			for _, e := range w.enabled(&simMenu{}, s.cnt) {
+				if e.K == "D" && e.N == n {
+					err = s.apply(e, true)
+					found = true
+					break
+				}
+			}
+			if !found && err == nil {
+				err = fmt.Errorf("no request in flight to node %d", n+1)
+			}
 		case "disc":
 			// deliver every pending "peer disconnected" notification
 			for {
